@@ -113,6 +113,7 @@ type Options struct {
 
 type Debug struct {
 	frame           *callFrame
+	tail            bool // the level is a frame lost to a tail call (frame is the bottom frame)
 	Name            string
 	What            string
 	Source          string
@@ -1637,6 +1638,12 @@ func (ls *LState) Error(lv LValue, level int) {
 
 func (ls *LState) GetInfo(what string, dbg *Debug, fn LValue) (LValue, error) {
 	if !strings.HasPrefix(what, ">") {
+		if dbg.tail {
+			// info_tailcall in ldebug.c: the pseudo level of a lost frame has no function and no lines
+			dbg.Name, dbg.What, dbg.Source, dbg.NUpvalues = "", "tail", "=(tail call)", 0
+			dbg.CurrentLine, dbg.LineDefined, dbg.LastLineDefined = -1, -1, -1
+			return LNil, nil
+		}
 		fn = dbg.frame.Fn
 	} else {
 		what = what[1:]
@@ -1704,7 +1711,7 @@ func (ls *LState) GetStack(level int) (*Debug, bool) {
 	if level == 0 && frame != nil {
 		return &Debug{frame: frame}, true
 	} else if level < 0 && ls.stack.Sp() > 0 {
-		return &Debug{frame: ls.stack.At(0)}, true
+		return &Debug{frame: ls.stack.At(0), tail: true}, true
 	}
 	return &Debug{}, false
 }
